@@ -275,6 +275,20 @@ Fixpoint krun (P : kparams) (k : kstate) (X : bytes) (pos : N) (calls : list kca
       end
   end.
 
+(* ---------- driving ZSTD_e_end to completion: call i gets all the remaining input and capacity [caps i] ---------- *)
+Inductive endres := EDone (ncalls : nat) | EErr | EMore (k : kstate) (R : bytes).
+Fixpoint kend_run (P : kparams) (fc : fconf) (k : kstate) (R : bytes) (caps : nat -> N) (i n : nat) : endres :=
+  match n with
+  | O => EMore k R
+  | S n' =>
+      let o := kstep P fc k R (caps i) DirEnd in
+      match ko_ret o with
+      | None => EErr
+      | Some r => if r =? 0 then EDone (S i)
+                  else kend_run P fc (ko_k o) (dr (Z.to_N (ko_consumed o)) R) caps (S i) n'
+      end
+  end.
+
 End Compressor.
 
 Arguments k_stage {CS} k. Arguments k_blockSize {CS} k. Arguments k_inBuffSize {CS} k. Arguments k_outBuffSize {CS} k.
@@ -282,6 +296,7 @@ Arguments k_inBuffPos {CS} k. Arguments k_inToCompress {CS} k. Arguments k_inBuf
 Arguments k_outContent {CS} k. Arguments k_outFlushed {CS} k. Arguments k_outPend {CS} k. Arguments k_frameEnded {CS} k.
 Arguments k_held {CS} k. Arguments k_expectOut {CS} k. Arguments k_appliedSI {CS} k. Arguments k_cs {CS} k.
 Arguments g_k {CS} g. Arguments g_in {CS} g. Arguments g_ip {CS} g. Arguments g_out {CS} g. Arguments g_ocap {CS} g.
+Arguments EDone {CS} ncalls. Arguments EErr {CS}. Arguments EMore {CS} k R.
 Arguments GCont {CS} g. Arguments GStop {CS} g. Arguments GErr {CS} e.
 Arguments ko_k {CS} k. Arguments ko_consumed {CS} k. Arguments ko_out {CS} k. Arguments ko_ret {CS} k. Arguments ko_err {CS} k.
 Arguments k_set_stage {CS}. Arguments k_set_in {CS}. Arguments k_set_out {CS}. Arguments k_set_cs {CS}. Arguments k_set_held {CS}.
